@@ -23,18 +23,19 @@ VARIABLES l,        \* next line
           cScript,  \* the script of the case (what the handler was told to do)
           oRaw,     \* observed raw calls on the client's writer
           oErrs, oLogs, oInvoked, oScript,
+          oReal,    \* what a real HTTP client received from a real net/http server running the same case (<<>>: not run)
           oEnd,     \* the end line once consumed, else <<>>
           diverged  \* model could not follow the trace in this run
 
-tvars == <<l, caseIdx, cScript, oRaw, oErrs, oLogs, oInvoked, oScript, oEnd, diverged>>
+tvars == <<l, caseIdx, cScript, oRaw, oErrs, oLogs, oInvoked, oScript, oReal, oEnd, diverged>>
 
 Line == Trace[l]
 IsEv(e) == l <= Len(Trace) /\ Line.ev = e /\ l' = l + 1
 
 TraceInit ==
    /\ l = 1 /\ caseIdx = -1 /\ cScript = <<>> /\ oRaw = <<>> /\ oErrs = <<>> /\ oLogs = <<>> /\ oInvoked = 0
-   /\ oScript = <<>> /\ oEnd = <<>> /\ diverged = FALSE
-   /\ cfg = [strict |-> FALSE, reqClass |-> "valid_post", errMode |-> "default", gate |-> "validator", opt |-> "none", primer |-> "none"]
+   /\ oScript = <<>> /\ oReal = <<>> /\ oEnd = <<>> /\ diverged = FALSE
+   /\ cfg = [strict |-> FALSE, reqClass |-> "valid_post", errMode |-> "default", gate |-> "validator", opt |-> "none", primer |-> "none", auth |-> "callback"]
    /\ phase = "done" /\ w = WInit /\ hdr = "none" /\ script = <<>> /\ cOut = <<>>
    /\ invoked = 0 /\ errs = <<>> /\ logs = <<>>
 
@@ -45,7 +46,7 @@ TraceReset ==
    /\ phase' = "start" /\ w' = WInit /\ hdr' = "none" /\ script' = <<>> /\ cOut' = <<>>
    /\ invoked' = 0 /\ errs' = <<>> /\ logs' = <<>>
    /\ oRaw' = <<>> /\ oErrs' = <<>> /\ oLogs' = <<>> /\ oInvoked' = 0 /\ oScript' = <<>>
-   /\ oEnd' = <<>> /\ diverged' = FALSE
+   /\ oEnd' = <<>> /\ oReal' = <<>> /\ diverged' = FALSE
 
 (* take model action A if it is enabled, otherwise mark the run diverged *)
 Follow(A) == \/ (~diverged /\ A /\ UNCHANGED diverged)
@@ -54,67 +55,88 @@ Follow(A) == \/ (~diverged /\ A /\ UNCHANGED diverged)
 TraceEnter ==
    /\ IsEv("Enter") /\ Follow(Invoke)
    /\ oInvoked' = oInvoked + 1
-   /\ UNCHANGED <<caseIdx, cScript, oRaw, oErrs, oLogs, oScript, oEnd>>
+   /\ UNCHANGED <<caseIdx, cScript, oRaw, oErrs, oLogs, oScript, oReal, oEnd>>
 
 TraceHandlerCall ==
-   /\ IsEv("H") /\ Follow(HandlerCall(Line.c))
+   \* the model also predicts what a Probe finds and what a body read returns (fidelity: a difference marks the run diverged)
+   /\ IsEv("H") /\ Follow(/\ HandlerCall(Line.c)
+                          /\ ("caps" \in DOMAIN Line => {Line.caps[i] : i \in DOMAIN Line.caps} = Caps(cfg))
+                          \* the first read returns what the client sent, a later one finds the body at EOF
+                          /\ ("read" \in DOMAIN Line =>
+                                Line.read = IF \E i \in DOMAIN oScript : oScript[i].c = "RB" THEN "" ELSE Line.sent))
    /\ oScript' = Append(oScript, Line.c)
-   /\ UNCHANGED <<caseIdx, cScript, oRaw, oErrs, oLogs, oInvoked, oEnd>>
+   /\ UNCHANGED <<caseIdx, cScript, oRaw, oErrs, oLogs, oInvoked, oReal, oEnd>>
 
 TraceClient ==
    /\ IsEv("C")
    /\ oRaw' = Append(oRaw, CASE Line.e = "WH" -> [e |-> "WH", s |-> Line.s, ct |-> Line.ct]
                              [] Line.e = "W"  -> [e |-> "W", data |-> Line.data, ct |-> Line.ct]
                              [] Line.e = "F"  -> [e |-> "F", ct |-> Line.ct])
-   /\ UNCHANGED <<vars, caseIdx, cScript, oErrs, oLogs, oInvoked, oScript, oEnd, diverged>>
+   /\ UNCHANGED <<vars, caseIdx, cScript, oErrs, oLogs, oInvoked, oScript, oReal, oEnd, diverged>>
 
 TraceErr ==
    /\ IsEv("Err") /\ oErrs' = Append(oErrs, [status |-> Line.status, code |-> Line.code])
-   /\ UNCHANGED <<vars, caseIdx, cScript, oRaw, oLogs, oInvoked, oScript, oEnd, diverged>>
+   /\ UNCHANGED <<vars, caseIdx, cScript, oRaw, oLogs, oInvoked, oScript, oReal, oEnd, diverged>>
 
 TraceLog ==
    /\ IsEv("Log") /\ oLogs' = Append(oLogs, Line.msg)
-   /\ UNCHANGED <<vars, caseIdx, cScript, oRaw, oErrs, oInvoked, oScript, oEnd, diverged>>
+   /\ UNCHANGED <<vars, caseIdx, cScript, oRaw, oErrs, oInvoked, oScript, oReal, oEnd, diverged>>
 
 (* the handler behind the OTHER wrapper of the same ValidationHandler ran: consumed here; the run then fails *)
 (* "handler_iff_valid" (the handler under test was not entered) and the passthrough clause                    *)
 TraceOther ==
    /\ IsEv("Other")
+   /\ UNCHANGED <<vars, caseIdx, cScript, oRaw, oErrs, oLogs, oInvoked, oScript, oReal, oEnd, diverged>>
+
+(* the second pass of the harness: the same case through a real net/http server and client (comes after the first  *)
+(* pass's events, before the end line)                                                                              *)
+TraceReal ==
+   /\ IsEv("Real") /\ oReal' = Line
    /\ UNCHANGED <<vars, caseIdx, cScript, oRaw, oErrs, oLogs, oInvoked, oScript, oEnd, diverged>>
 
 TraceEnd ==
    /\ IsEv("end")
-   /\ Follow(Gate \/ RespCheckFrom("handler"))       \* the silent epilogue
+   /\ Follow(Epilogue)       \* the silent epilogue
    /\ oEnd' = Line
-   /\ UNCHANGED <<caseIdx, cScript, oRaw, oErrs, oLogs, oInvoked, oScript>>
+   /\ UNCHANGED <<caseIdx, cScript, oRaw, oErrs, oLogs, oInvoked, oScript, oReal>>
 
-TraceNext == TraceReset \/ TraceEnter \/ TraceHandlerCall \/ TraceClient \/ TraceErr \/ TraceLog \/ TraceOther \/ TraceEnd
+TraceNext == TraceReset \/ TraceEnter \/ TraceHandlerCall \/ TraceClient \/ TraceErr \/ TraceLog \/ TraceOther \/ TraceReal \/ TraceEnd
 
 TraceSpec == TraceInit /\ [][TraceNext]_<<vars, tvars>>
 
 -----------------------------------------------------------------------------
 Obs == LET eff == Effective(oRaw, oEnd.finalCt) IN
        [invoked |-> oInvoked, errs |-> oErrs,
-        eff |-> [eff EXCEPT !.panicked = @ \/ oEnd.panic]]
+        \* a panic other than the handler's own scripted one (oEnd.hpanic: the value recovered is the script's sentinel)
+        eff |-> [eff EXCEPT !.panicked = @ \/ (oEnd.panic /\ ~oEnd.hpanic)],
+        silent |-> oRaw = <<>>]
 
 (* the handler performed exactly the calls of the case (realiser round trip) *)
-Realised == oInvoked = 0 \/ oEnd.panic \/ oScript = cScript
+Realised == oInvoked = 0 \/ (oEnd.panic /\ ~oEnd.hpanic) \/ oScript = cScript
+
+(* The ClientModel of Middleware.tla (how raw ResponseWriter calls add up to a response) is itself bound to the real    *)
+(* thing: what a real client received equals what the model makes of the raw calls of the first pass.  A failure here   *)
+(* is a defect of the specification (or of the harness's recording writer), not of the library.                        *)
+ClientModelOK == \/ oReal = <<>> \/ oReal.err \/ Obs.eff.panicked
+                 \/ (oReal.status = Obs.eff.status /\ oReal.body = Obs.eff.body)
 
 RunFailed == Failed(cfg, IF oInvoked > 0 THEN oScript ELSE <<>>, Obs)
              \cup (IF Realised THEN {} ELSE {"harness_realiser"})
+             \cup (IF ClientModelOK THEN {} ELSE {"client_model_is_net_http"})
 
 (* Judge is always TRUE; rejected runs are reported and validation continues *)
 Judge ==
    (oEnd # <<>>) =>
       \/ RunFailed = {}
       \/ CSVWrite("%1$s", <<ToJson([case |-> caseIdx, failed |-> RunFailed, cfg |-> cfg,
-                                     script |-> oScript, obs |-> Obs, class |-> "none"])>>,
+                                     script |-> oScript, obs |-> Obs, class |-> Class(cfg, oScript, RunFailed)])>>,
                   "violations.ndjson")
 
 Fidelity ==
    (oEnd # <<>> /\ RunFailed = {}) =>
-      \/ (IsVH(cfg) /\ cfg.reqClass \notin ValidClasses)        \* the encoder's body is not modelled
-      \/ (~diverged /\ cOut = oRaw /\ (cfg.errMode = "custom" => errs = oErrs) /\ logs = oLogs)
+      \/ (IsVH(cfg) /\ cfg.errMode = "default" /\ ExpectedGate(cfg) # 0)        \* the default encoders' body is not modelled
+      \* errMode "default": the Validator's own errFunc / logFunc are in use, their calls are not observed
+      \/ (~diverged /\ cOut = oRaw /\ (cfg.errMode = "custom" => errs = oErrs /\ logs = oLogs))
       \/ CSVWrite("%1$s", <<ToJson([case |-> caseIdx, diverged |-> diverged, model |-> cOut,
                                      observed |-> oRaw, mlogs |-> logs, ologs |-> oLogs])>>,
                   "fidelity.ndjson")
